@@ -221,7 +221,7 @@ static int v_ew_only = -1;	/* >= 0: outer waits report only registrations of tha
 
 static int
 v_epoll_wait(int epfd, struct epoll_event *ev, int maxev, int timeout) {
-	int i, found = -1, found_nested = 0;
+	int i, found = -1, found_nested = 0, cand = 0;
 
 	env_move(EP_EPOLL_WAIT, NULL);
 	V_ASSERT(FD_EPOLL == v_fd_kind(epfd), "epoll_wait() on an open epoll descriptor");
@@ -241,6 +241,12 @@ v_epoll_wait(int epfd, struct epoll_event *ev, int maxev, int timeout) {
 		int nested = (FD_EPOLL == e->r[i].kind);
 		if (0 != timeout && v_ew_only >= 0 && nested != v_ew_only)
 			continue;	/* shape: this step reports only the own queue (0) / only the nested epoll (1) */
+		if (!cand) { /* *ev is unspecified when the call returns <= 0: the model leaves the first candidate there, which
+			      * keeps the pointer concrete for CBMC when only one registration qualifies */
+			cand = 1;
+			ev->events = EPOLLIN;
+			ev->data.ptr = e->r[i].ptr;
+		}
 		if (!(v_reg_ready(&e->r[i]) || (nested && v_ew_spurious)))
 			continue;
 		if (found < 0 || (nested == v_ew_pick && found_nested != v_ew_pick)) {
@@ -272,7 +278,11 @@ v_write(int fd, const void *buf, size_t n) {
 	V_ASSERT(n == sizeof(tpt_msg_pkt_t), "write() of exactly one packet (atomic, below PIPE_BUF)");
 	struct v_pipe_s *p = &v_pipes[v_fdt[fd].idx];
 	V_ASSERT(v_n_write < V_NW, "BUDGET write() calls of the model");
+#ifdef V_WRES	/* concrete shape: result selector of the i-th write() */
+	unsigned sel = (unsigned)(V_WRES(v_n_write));
+#else
 	unsigned sel = (v_n_write < V_NW) ? IN.tp.wres[v_n_write] : 0;
+#endif
 	v_n_write ++;
 	if (!p->r_open) sel = 2;
 	else if (0 == sel && p->cnt >= V_QCAP) sel = 1;
@@ -296,19 +306,21 @@ v_read(int fd, void *buf, size_t n) {
 	}
 	struct v_pipe_s *p = &v_pipes[v_fdt[fd].idx];
 	unsigned k = p->cnt, room = (unsigned)(n / sizeof(tpt_msg_pkt_t)), i;
-	if (k > room) k = room;
+	V_ASSERT(room >= V_QCAP, "read() buffer holds at least the pipe capacity of the model");
 	if (0 == k) {
 		if (!p->w_open)
 			return (0);
 		errno = EAGAIN;
 		return (-1);
 	}
+	/* Every slot of the (tiny) pipe buffer is copied, the return value says how many packets are real.  Bytes beyond
+	 * the returned count are "unspecified" for a caller; giving them the stale slot contents (instead of leaving the
+	 * caller's uninitialised stack) keeps callback pointers concrete for CBMC, and a receiver that wrongly looked
+	 * beyond the count would re-deliver an old message - which the exactly-once assertions catch. */
 	tpt_msg_pkt_t *dst = (tpt_msg_pkt_t *)buf;
-	for (i = 0; i < k; i ++)
+	for (i = 0; i < V_QCAP; i ++)
 		dst[i] = p->q[i];
-	for (i = k; i < p->cnt; i ++)
-		p->q[i - k] = p->q[i];
-	p->cnt -= k;
+	p->cnt = 0;
 	return ((ssize_t)(k * sizeof(tpt_msg_pkt_t)));
 }
 
